@@ -20,6 +20,7 @@
 (*                      without records (Cache!KeysNeeded)                     *)
 (*   C20.cache-subs     the subtype table; C20.cache-subs-needed               *)
 (*   C18.cache-purge    what the removal of an interface drops and reports     *)
+(*   C13.cache-forget   what stop_browse (remove_service_type) drops            *)
 (*   C10.cache-known    which cached records a query lists as known answers    *)
 (***************************************************************************)
 EXTENDS Integers, Sequences, FiniteSets, TLC, TLCExt, Json, IOUtils
@@ -129,8 +130,16 @@ Refresh ==
 Forget ==
   /\ Ev.k = "forget"
   /\ c' = M!Forget(c, Ev.ty)
-  /\ viol' = Cap(viol, ContentV(M!Forget(c, Ev.ty)))
-  /\ hits' = hits \cup {"C20.cache-forget"}
+  /\ LET c2 == M!Forget(c, Ev.ty)
+         ids == {DId(d) : d \in Range(Ev.dump)}
+     IN /\ viol' = Cap(viol, ContentV(c2)
+              \cup V("C13.cache-forget", ids \ M!Ids(c2) = {},
+                     <<"stopping the browse of a type leaves records of it (PTR, the instances' SRV / TXT, their hosts' addresses) in the cache", ids \ M!Ids(c2)>>)
+              \cup V("C13.cache-forget", M!Ids(c2) \ ids = {},
+                     <<"stopping the browse of a type drops records that do not belong to it", M!Ids(c2) \ ids>>))
+        /\ hits' = hits \cup {"C20.cache-forget"}
+                        \cup (IF M!Ids(c2) # M!Ids(c) THEN {"C13.cache-forget"} ELSE {})
+                        \cup (IF \E x \in M!Ids(c) \ M!Ids(c2) : x[1] = "addr" THEN {"C13.cache-forget-addr"} ELSE {})
   /\ UNCHANGED scen
 
 DropIntf ==
